@@ -92,15 +92,15 @@ def build(chk):
     def typed_harness(focus):
         def h(P):
             faults = []          # (rule, path) expected to be reportable
-            sense = P.bv('sense', bits=32)
-            kinds = [P.bv(f'kind{i}', bits=32) for i in range(2)]
-            eqs = [P.bv(f'eq{i}', bits=32) for i in range(2)]
-            if focus != 'enums':
-                P.ctx.assume(z3.And(z3.ULE(1, sense), z3.ULE(sense, 2)))
-                for k in kinds:
-                    P.ctx.assume(z3.And(z3.ULE(1, k), z3.ULE(k, 5)))
-                for e in eqs:
-                    P.ctx.assume(z3.And(z3.ULE(1, e), z3.ULE(e, 2)))
+            if focus == 'enums':
+                sense = P.bv('sense', bits=32)
+                kinds = [P.bv(f'kind{i}', bits=32) for i in range(2)]
+                eqs = [P.bv(f'eq{i}', bits=32) for i in range(2)]
+            else:
+                # enum fields concrete outside the enum-focused harness (each symbolic enum multiplies the explored paths)
+                sense = z3.BitVecVal([1, 2][P.choose(2)], 32)
+                kinds = [z3.BitVecVal([2, 1, 3][P.choose(3)], 32), z3.BitVecVal(1, 32)]
+                eqs = [z3.BitVecVal(1, 32), z3.BitVecVal(2, 32)]
             # bounds
             bshape = ['none', 'finite', 'nan-lower', 'inf-lower', 'ninf-upper', 'free'][P.choose(6)] if focus == 'bounds' else ['none', 'finite'][P.choose(2)]
             lo, hi = P.real('lo'), P.real('hi')
@@ -118,18 +118,20 @@ def build(chk):
                 cids = [10, [10, 11][P.choose(2)]]
                 rid = [10, 12][P.choose(2)]
             dep_id = [1, 7][P.choose(2)] if focus == 'ids' else 2
+            undef_at = [None, 'objective', 'constraint', 'removed', 'dependency'][P.choose(5)] if focus == 'used-ids' else None
+            uid = lambda where, i: 9 if undef_at == where else i
             oh_c = [10, 99][P.choose(2)] if focus == 'hints' else 10
             oh_v = [[1, 2], [1, 1], [1, 9]][P.choose(3)] if focus == 'hints' else [1, 2]
             sos_b = [10, 99][P.choose(2)] if focus == 'hints' else 10
             sos_m = [[11], [11, 11], [98]][P.choose(3)] if focus == 'hints' else [11]
             sos_v = [[2], [2, 2], [9]][P.choose(3)] if focus == 'hints' else [2]
             hints_present = P.choose(2) if focus == 'hints' else 1
-            obj = lin_ids(chk, [1]) if obj_set else (chk.M.function(), SymFn([]))
+            obj = lin_ids(chk, [uid('objective', 1)]) if obj_set else (chk.M.function(), SymFn([]))
             spec = Inst(sense=sense, objective=obj if obj_present else None,
                         vars=[Var(vids[0], kinds[0], bound0, name='x'), Var(vids[1], kinds[1], None, sub=P.real('sub'))],
-                        cons=[Con(cids[0], eqs[0], lin_ids(chk, [2]) if cfn_present else None, name='c0', subscripts=[4]), Con(cids[1], eqs[1], lin_ids(chk, [1]))],
-                        removed=[Rem(Con(rid, EQ, lin_ids(chk, [1])) if rem_con_present else None, reason='rr', params=[('a', 'b')])],
-                        deps=[(dep_id, lin_ids(chk, [1]))],
+                        cons=[Con(cids[0], eqs[0], lin_ids(chk, [uid('constraint', 2)]) if cfn_present else None, name='c0', subscripts=[4]), Con(cids[1], eqs[1], lin_ids(chk, [1]))],
+                        removed=[Rem(Con(rid, EQ, lin_ids(chk, [uid('removed', 1)])) if rem_con_present else None, reason='rr', params=[('a', 'b')])],
+                        deps=[(dep_id, lin_ids(chk, [uid('dependency', 1)]))],
                         hints=eng.struct('v1::ConstraintHints', one_hot_constraints=RVec([eng.struct('v1::OneHot', constraint_id=oh_c, decision_variables=RVec(list(oh_v)))]),
                                          sos1_constraints=RVec([eng.struct('v1::Sos1', binary_constraint_id=sos_b, big_m_constraint_ids=RVec(list(sos_m)),
                                                                            decision_variables=RVec(list(sos_v)))])) if hints_present else None)
@@ -146,7 +148,7 @@ def build(chk):
                 elif bl.tag == 'fin' and bu.tag == 'fin':
                     conds.append(bl.r <= bu.r)
             conds += [len(set(vids)) == 2, bool(obj_present), bool(obj_set), bool(cfn_present), bool(rem_con_present),
-                      len(set(cids)) == 2, rid not in cids, dep_id in vids]
+                      len(set(cids)) == 2, rid not in cids, dep_id in vids, undef_at is None]
             if hints_present:
                 conds += [oh_c in cids, len(set(oh_v)) == len(oh_v), set(oh_v) <= set(vids), sos_b in cids, len(set(sos_m)) == len(sos_m), set(sos_m) <= set(cids),
                           len(set(sos_v)) == len(sos_v), set(sos_v) <= set(vids)]
@@ -178,7 +180,7 @@ def build(chk):
                 return
             if res.vname == 'Ok':
                 P.cover('accepted')
-                if not P.require('accepted-only-if-well-formed', well, witness):
+                if not P.require('accepted-only-if-well-formed', well, witness, role='undefined-variable-id-in-function-accepted' if undef_at else None):
                     return
                 # typed content
                 t = res.f[0]
@@ -205,7 +207,7 @@ def build(chk):
                 P.cover('rejected')
                 P.require('never-rejects-well-formed', b_not(well), witness)
         return h
-    for focus in ('enums', 'bounds', 'fields', 'ids', 'hints'):
+    for focus in ('enums', 'bounds', 'fields', 'ids', 'hints', 'used-ids'):
         chk.harness(f'try_from:{focus}', typed_harness(focus), regions=['accepted', 'rejected'])
     chk.validation('validate/try_from', lambda c: validate_tv(c, validate, tryfrom))
 
